@@ -131,6 +131,16 @@ impl Socket {
   ///
   /// The `frames` Vec should have MsgFlags::MORE set correctly on all but the last Msg.
   pub async fn send_multipart(&self, frames: Vec<Msg>) -> Result<(), ZmqError> {
+    // A FrameBatch holds at most 255 frames and the socket patterns may add up to two envelope frames
+    // (routing identity, empty delimiter) on the way out or in: refuse what cannot be carried instead of
+    // panicking somewhere down the pipeline.
+    if frames.len() > crate::message::MAX_USER_FRAMES_PER_MESSAGE {
+      return Err(ZmqError::InvalidMessage(format!(
+        "multipart message has {} frames; at most {} are supported",
+        frames.len(),
+        crate::message::MAX_USER_FRAMES_PER_MESSAGE
+      )));
+    }
     self.inner.send_multipart(FrameBatch::from(frames)).await
   }
 
